@@ -327,14 +327,16 @@ class Sym:
         return Sym(TAN(s.z))
 
     def arccos(s):
-        ctx().obligation("acos_domain", z3.And(s.z >= -1, s.z <= 1), what="arccos argument in [-1,1]")
+        if not QUIET[0]:
+            ctx().obligation("acos_domain", z3.And(s.z >= -1, s.z <= 1), what="arccos argument in [-1,1]")
         return Sym(ACOS(s.z))
 
     def arctan(s):
         return Sym(ATAN(s.z))
 
     def log(s):
-        ctx().obligation("log_domain", s.z > 0)
+        if not QUIET[0]:
+            ctx().obligation("log_domain", s.z > 0)
         return Sym(LOG(s.z))
 
     def conjugate(s):
@@ -379,8 +381,24 @@ class Sym:
         raise Unsupported("index from a symbolic value")
 
 
+QUIET = [0]
+
+
+class quiet:
+    """Evaluate without recording obligations/facts (re-evaluation of a lifted array's element closure:
+    the obligations were recorded, at the generic index, when the operation was applied)."""
+
+    def __enter__(self):
+        QUIET[0] += 1
+
+    def __exit__(self, *a):
+        QUIET[0] -= 1
+
+
 def _div_guard(d):
     """Record the safety obligation d != 0, then continue on the path where it holds."""
+    if QUIET[0]:
+        return
     c = ctx()
     c.obligation("div_nonzero", d != 0, what="denominator non-zero")
     c.assume(d != 0)
@@ -400,6 +418,8 @@ def sym_sqrt(s):
     key = a.get_id()
     if key in c.sqrt_defs:
         return Sym(c.sqrt_defs[key])
+    if QUIET[0]:
+        raise Unsupported("sqrt inside a lifted element closure")
     c.obligation("sqrt_domain", a >= 0, what="sqrt argument non-negative")
     w = z3.Real(c.fresh("sqrt"))
     c.assume(z3.And(w >= 0, w * w == a))
